@@ -196,6 +196,10 @@ class Universe:
             A.volume: 1, A.crystals_get_damaged: opt(ch([1, 1, 0])), A.hp: opt(ch([1, 1, 0, 2]), .1),
             A.crystal_volatility_chance: opt(ch([0.1, 0.001, 0, 0.3]), .1),
             A.crystal_volatility_dmg: opt(ch([0.01, 0.025, 0, 1]), .1)})) for _ in range(2)]
+        # a damageable crystal that survives a fractional number of cycles (1 / 0.025 / 0.3 = 133.3): with several of them
+        # in the magazine the rounding must happen per crystal
+        crystal.append(self._add('charge', mrg(dmg(), {A.volume: ch([1, 0.5]), A.crystals_get_damaged: 1, A.hp: 1,
+                                                       A.crystal_volatility_chance: 0.3, A.crystal_volatility_dmg: 0.025})))
         fuel = [self._add('charge', {A.volume: ch([1, 4, 0.5])})]
         self.charges_for = {}
         # modules
